@@ -424,7 +424,7 @@ pub fn run(args: &Args, out: &mut Out) {
     }
 
     // (4) op histories on a real Behaviour (life cycle of `ongoing_inbound`, throttling over time)
-    let n = args.n(1500, 60_000);
+    let n = args.n(1500, 30_000);
     for i in 0..n {
         let mut rng = Rng::for_case(args.seed ^ 0x5E0, i);
         crate::c50_seq::gen_case(&mut rng, out, 1_000_000 + i, args.thorough);
